@@ -55,9 +55,7 @@ def regenerate_all():
                 fh.write(txt)
 
 
-# individual extractors are registered by importing the modules below
-for _m in ("params_defs",):
-    try:
-        __import__(_m)
-    except ImportError:
-        pass
+# individual extractors are registered by importing every py/params_c*.py module
+for _f in sorted(os.listdir(os.path.dirname(os.path.abspath(__file__)))):
+    if _f.startswith("params_c") and _f.endswith(".py"):
+        __import__(_f[:-3])
